@@ -196,7 +196,7 @@ def _gc_target(td, limit_gb=10.0):
 
 
 def _gc(keep):
-    """Keep the cache small: drop fact sets of tree hashes not used recently (keep the 16 most recently used and anything used in the last hour)."""
+    """Keep the cache small: drop fact sets of tree hashes not used recently (keep the 16 most recently used and anything used in the last 15 minutes)."""
     root = os.path.join(CACHE, "facts")
     try:
         ds = sorted((os.path.getmtime(os.path.join(root, d)), d) for d in os.listdir(root))
@@ -205,7 +205,7 @@ def _gc(keep):
     now = time.time()
     for mt, d in ds[:-16]:
         p = os.path.join(root, d)
-        if p != keep and now - mt > 3600:     # never remove what a concurrent run may be using (mtime = last use)
+        if p != keep and now - mt > 900:     # never remove what a concurrent run may be using (mtime = last use)
             shutil.rmtree(p, ignore_errors=True)
 
 
